@@ -455,7 +455,9 @@ def doc_twins(ctx, res, c):
         for step in range(rng.randint(1, 4)):
             which = rng.choice("AB")
             t, m, other, mo = (a, ma, b, mb) if which == "A" else (b, mb, a, ma)
-            op = {"op": rng.choice(DOC_OPS + ["merge_from_the_other_twin"]), "k": rng.randrange(10**6)}
+            # (a merge of the other twin's styles was tried as an operation here and withdrawn: see DESIGN 5.3;
+            # "the giver of a merge stays as it was" is judged by C13)
+            op = {"op": rng.choice(DOC_OPS), "k": rng.randrange(10**6)}
             ops.append([which, op])
             # parsed before the snapshot: parsing a part is not a change, the operation below reads every part of the other twin
             if op["op"] == "merge_from_the_other_twin":
